@@ -15,7 +15,9 @@ import (
 	"net/http/httptest"
 	"net/url"
 	"runtime"
+	"sort"
 	"sync"
+	"time"
 
 	"github.com/whoisnian/glb/httpd"
 	"verif/harness/internal/vio"
@@ -47,6 +49,9 @@ type op struct {
 	GidExit []int  `json:"gidexit"`
 	Reused  bool   `json:"reused"`
 	Crash   string `json:"crash"`
+	Cnt     int    `json:"cnt"`  // hreq: how many requests of the hammer phase made exactly this observation
+	Dups    int    `json:"dups"` // hsum: request ids handed out twice / ids that changed during a request
+	Changed int    `json:"changed"`
 }
 type history struct {
 	Ops  []op   `json:"ops"`
@@ -54,6 +59,7 @@ type history struct {
 }
 
 type world struct {
+	frozen  bool // hammer phase: the route table no longer changes, handlers take no lock
 	mux     *httpd.Mux
 	mu      sync.Mutex
 	ids     map[*httpd.RouteInfo]int
@@ -64,7 +70,10 @@ type world struct {
 
 func take(w *world, s *httpd.Store) snap {
 	sn := snap{V: make([][]int, len(names))}
-	w.mu.Lock()
+	if !w.frozen {
+		w.mu.Lock()
+		defer w.mu.Unlock()
+	}
 	if s.I != nil {
 		if s.I.Path == "" && s.I.Method == "" {
 			sn.ID = 0
@@ -74,7 +83,6 @@ func take(w *world, s *httpd.Store) snap {
 	} else {
 		sn.ID = -1
 	}
-	w.mu.Unlock()
 	for i, n := range names {
 		if n == "/:any" {
 			sn.V[i] = vio.Ints(s.RouteParamAny())
@@ -107,10 +115,12 @@ func newWorld() *world {
 	w.mux.HandleNoRoute(h)
 	w.mux.HandleRelay(func(s *httpd.Store) {
 		rc := s.R.Context().Value(ctxKey{}).(*reqCtx)
-		w.mu.Lock()
-		rc.o.Reused = w.seen[s]
-		w.seen[s] = true
-		w.mu.Unlock()
+		if !w.frozen {
+			w.mu.Lock()
+			rc.o.Reused = w.seen[s]
+			w.seen[s] = true
+			w.mu.Unlock()
+		}
 		rc.o.Relay = take(w, s)
 		defer func() {
 			rc.o.GidExit = vio.Ints(string(append([]byte(nil), s.GetID()...)))
@@ -164,6 +174,7 @@ func main() {
 	depth := flag.Int("depth", 3, "exhaustive sequential history length")
 	long := flag.Int("long", 300, "seeded long sequential histories")
 	conc := flag.Int("conc", 40, "seeded concurrent histories")
+	nham := flag.Int("hammer", 1500, "milliseconds per hammer phase")
 	flag.Parse()
 	wr := vio.Create(*out)
 	defer wr.Close()
@@ -256,7 +267,187 @@ func main() {
 		}
 		wr.Put(h)
 	}
+	for i := 0; i < 3; i++ {
+		hammer(wr, rng, time.Duration(*nham)*time.Millisecond)
+	}
 }
+
+// hammer: many goroutines (4 per CPU) serve requests through one Mux with a fixed route table for a fixed time.
+// Requests are few in kind, so the distinct observations (route, every parameter lookup, initial status - in the relay
+// and in the handler) are few as well: each distinct one is recorded once with its count and judged by TLC like any
+// other request ("hreq"); request ids are compared among all requests here (too many to hand over) and only the totals
+// are recorded ("hsum").  The handlers are as light as possible so that most of the time is spent in ServeHTTP itself.
+type lightObs struct {
+	id int
+	v  [5]string
+	st int
+}
+type hamKey struct {
+	pi, mi, bi     int
+	relay, handler lightObs
+}
+type hamCtx struct {
+	bi             int
+	relay, handler lightObs
+	gid1, gid2, gx string
+}
+type hamCtxKey struct{}
+
+func hammer(wr *vio.Writer, rng *rand.Rand, dur time.Duration) {
+	G := 4 * runtime.NumCPU()
+	mux := httpd.NewMux()
+	h := history{Kind: "hammer"}
+	regID := map[string]int{}
+	light := func(s *httpd.Store) (o lightObs) {
+		switch {
+		case s.I == nil:
+			o.id = -1
+		case s.I.Path == "" && s.I.Method == "":
+			o.id = 0
+		default:
+			o.id = regID[s.I.Method+" "+s.I.Path]
+		}
+		for i, n := range names {
+			if n == "/:any" {
+				o.v[i] = s.RouteParamAny()
+			} else {
+				o.v[i] = s.RouteParam(n)
+			}
+		}
+		o.st = s.W.Status
+		return
+	}
+	handler := func(s *httpd.Store) {
+		rc := s.R.Context().Value(hamCtxKey{}).(*hamCtx)
+		rc.handler = light(s)
+		rc.gid2 = string(append([]byte(nil), s.GetID()...))
+		if rc.bi == 1 {
+			s.W.WriteHeader(201)
+		}
+	}
+	mux.HandleNoRoute(handler)
+	mux.HandleRelay(func(s *httpd.Store) {
+		rc := s.R.Context().Value(hamCtxKey{}).(*hamCtx)
+		rc.relay = light(s)
+		rc.gid1 = string(append([]byte(nil), s.GetID()...))
+		s.I.HandlerFunc(s)
+		rc.gx = string(append([]byte(nil), s.GetID()...))
+	})
+	for k := 0; k < 6; k++ {
+		u := 1 + rng.Intn(len(universe))
+		acc := func() (ok bool) {
+			defer func() {
+				if recover() != nil {
+					ok = false
+				}
+			}()
+			mux.Handle(universe[u-1].pat, universe[u-1].method, handler)
+			return true
+		}()
+		if acc {
+			regID[universe[u-1].method+" "+universe[u-1].pat] = u
+		}
+		h.Ops = append(h.Ops, op{Op: "reg", U: u, Acc: acc, P: []int{}, GidExit: []int{},
+			Relay: snap{V: [][]int{}, Gid: []int{}}, Handler: snap{V: [][]int{}, Gid: []int{}}})
+	}
+	dicts := make([]map[hamKey]int, G)
+	gids := make([][]string, G)
+	changed := make([]int, G)
+	crashes := make([]string, G)
+	deadline := time.Now().Add(dur)
+	var wg sync.WaitGroup
+	for g := 0; g < G; g++ {
+		wg.Add(1)
+		seed := rng.Int63()
+		go func(g int) {
+			defer wg.Done()
+			r := rand.New(rand.NewSource(seed))
+			d := map[hamKey]int{}
+			rw := &nopWriter{h: http.Header{}}
+			for q := 0; ; q++ {
+				if q&255 == 0 && time.Now().After(deadline) {
+					break
+				}
+				pi, mi, bi := r.Intn(len(paths)), r.Intn(len(methods)), r.Intn(2)
+				rc := &hamCtx{bi: bi}
+				req := (&http.Request{Method: methods[mi], URL: &url.URL{Path: paths[pi]}, Header: http.Header{}}).WithContext(
+					context.WithValue(context.Background(), hamCtxKey{}, rc))
+				func() {
+					defer func() {
+						if e := recover(); e != nil && crashes[g] == "" {
+							crashes[g] = fmt.Sprint(e)
+						}
+					}()
+					mux.ServeHTTP(rw, req)
+				}()
+				func() {
+					// a value read from a Store that another request was writing at the same moment can be torn
+					// (a string header with a length but no data): using it faults - which is an observation, too
+					defer func() {
+						if e := recover(); e != nil && crashes[g] == "" {
+							crashes[g] = "a value read through the Store was torn: " + fmt.Sprint(e)
+						}
+					}()
+					if rc.gid1 != rc.gid2 || rc.gid1 != rc.gx || len(rc.gid1) <= 9 {
+						changed[g]++
+					}
+					gids[g] = append(gids[g], rc.gid1)
+					d[hamKey{pi, mi, bi, rc.relay, rc.handler}]++
+				}()
+			}
+			dicts[g] = d
+		}(g)
+	}
+	wg.Wait()
+	merged := map[hamKey]int{}
+	total := 0
+	for _, d := range dicts {
+		for k, c := range d {
+			merged[k] += c
+			total += c
+		}
+	}
+	toSnap := func(o lightObs) snap {
+		sn := snap{ID: o.id, St: o.st, Gid: []int{}, V: make([][]int, len(names))}
+		for i := range names {
+			sn.V[i] = vio.Ints(o.v[i])
+		}
+		return sn
+	}
+	var ops []op
+	for k, c := range merged {
+		ops = append(ops, op{Op: "hreq", P: vio.Ints(paths[k.pi]), M: methods[k.mi], Beh: behaviours[k.bi], Relay: toSnap(k.relay), Handler: toSnap(k.handler),
+			GidExit: []int{}, Cnt: c})
+	}
+	sort.Slice(ops, func(i, j int) bool { return ops[i].Cnt > ops[j].Cnt })
+	crash := ""
+	for _, c := range crashes {
+		if c != "" {
+			crash = c
+		}
+	}
+	h.Ops = append(h.Ops, ops...)
+	seen := make(map[string]bool, total)
+	dups, ch := 0, 0
+	for g := range gids {
+		ch += changed[g]
+		for _, id := range gids[g] {
+			if seen[id] {
+				dups++
+			}
+			seen[id] = true
+		}
+	}
+	h.Ops = append(h.Ops, op{Op: "hsum", Dups: dups, Changed: ch, Cnt: total, Crash: crash, P: []int{}, GidExit: []int{},
+		Relay: snap{V: [][]int{}, Gid: []int{}}, Handler: snap{V: [][]int{}, Gid: []int{}}})
+	wr.Put(h)
+}
+
+type nopWriter struct{ h http.Header }
+
+func (w *nopWriter) Header() http.Header         { return w.h }
+func (w *nopWriter) WriteHeader(int)             {}
+func (w *nopWriter) Write(b []byte) (int, error) { return len(b), nil }
 
 func contextWith(rc *reqCtx) context.Context {
 	return context.WithValue(context.Background(), ctxKey{}, rc)
